@@ -621,6 +621,8 @@ def suite_filter_tables(rng, n, stats, kinds=None):
         L, R, lk, rk, la, ra = gen_join_frames(rng, ts, stats, big=rng.random() < 0.2)
         f, d = gen_filter(rng, ts, kind, stats)
         lo, ro = choose_out_attrs(rng, L, lk, la), choose_out_attrs(rng, R, rk, ra)
+        L0, R0, la0, ra0 = L, R, la, ra
+        L, R, lk, rk, la, ra, _c, _a, _b, bad = malform(rng, stats, L, R, lk, rk, la, ra)
         nj = rng.choice([1, 1, 2, 3, -1, 50])
         kw = {'l_out_attrs': lo, 'r_out_attrs': ro, 'n_jobs': nj, 'show_progress': False}
         oss = False
@@ -636,7 +638,7 @@ def suite_filter_tables(rng, n, stats, kinds=None):
         except Exception as e:   # noqa: BLE001
             exp = {'err': err_name(e)}
         req = {'op': 'filter_tables', 'ltable': frame(L), 'rtable': frame(R), 'l_key': lk, 'r_key': rk, 'l_attr': la, 'r_attr': ra,
-               'l_out': lo, 'r_out': ro, 'n_jobs': nj, 'tokenizer': ts.describe(), 'toks': ts.table(strings_of(L[la], R[ra])),
+               'l_out': lo, 'r_out': ro, 'n_jobs': nj, 'tokenizer': ts.describe(), 'toks': ts.table(strings_of(L0[la0], R0[ra0])),
                'out_sim_score': oss, 'cpu': common.CPU}
         req.update(d)
         cases.append((req, exp, 'multiset' if kind in ('size', 'prefix') else None))
@@ -662,10 +664,50 @@ def gen_candset(rng, L, R, lk, rk, stats):
     if rng.random() < 0.3:
         cols['extra'] = [rng.choice(['x', None, 'y']) for _ in sel]
     C = pd.DataFrame(cols)
-    if len(sel) and rng.random() < 0.4:
+    c = rng.random()
+    if len(sel) and c < 0.3:
         C.index = rng.sample(range(5 * len(sel) + 5), len(sel))
+    elif len(sel) and c < 0.55:
+        # repeated labels, as produced by pd.concat of per-job results (0..a-1, 0..b-1, ...) or worse
+        k = rng.randint(1, max(1, len(sel)))
+        C.index = [i % k for i in range(len(sel))] if rng.random() < 0.7 else [7] * len(sel)
+        stats.hit('candset.index.repeated')
     stats.hit('candset.size', len(sel))
     return C, 'l_' + lk, 'r_' + rk
+
+
+def malform(rng, stats, L, R, lk, rk, la, ra, C=None, clk=None, crk=None, numeric=True):
+    """with some probability turn valid arguments into ONE kind of invalid argument (C15 malformed stream);
+    also applied to EMPTY candidate sets, where an early return could skip a validation"""
+    if rng.random() > 0.2:
+        return L, R, lk, rk, la, ra, C, clk, crk, None
+    kinds = ['dup_l_key', 'nan_r_key', 'bad_l_attr', 'bad_r_key', 'not_frame_l'] + (['numeric_r_attr'] if numeric else [])
+    if C is not None:
+        kinds += ['bad_cand_key', 'not_frame_cand', 'empty_cand_dup_key', 'empty_cand_nan_key']
+    k = rng.choice(kinds)
+    stats.hit('malformed.' + k)
+    if k in ('dup_l_key', 'empty_cand_dup_key') and len(L) >= 2:
+        L = L.copy()
+        L[lk] = [L[lk].iloc[0]] * len(L)
+    elif k in ('nan_r_key', 'empty_cand_nan_key') and len(R) >= 1:
+        R = R.copy()
+        R[rk] = pd.Series([None] + list(R[rk].iloc[1:]), dtype=object, index=R.index)
+    elif k == 'bad_l_attr':
+        la = 'no_such_attr'
+    elif k == 'bad_r_key':
+        rk = 'no_such_key'
+    elif k == 'numeric_r_attr' and len(R) >= 1:
+        R = R.copy()
+        R[ra] = list(range(len(R)))
+    elif k == 'not_frame_l':
+        L = None
+    elif k == 'bad_cand_key':
+        clk = 'no_such_cand_key'
+    elif k == 'not_frame_cand':
+        C = [1, 2, 3]
+    if k.startswith('empty_cand') and C is not None and isinstance(C, pd.DataFrame):
+        C = C.iloc[0:0]
+    return L, R, lk, rk, la, ra, C, clk, crk, k
 
 
 def suite_filter_candset(rng, n, stats, kinds=None):
@@ -676,19 +718,21 @@ def suite_filter_candset(rng, n, stats, kinds=None):
         L, R, lk, rk, la, ra = gen_join_frames(rng, ts, stats)
         f, d = gen_filter(rng, ts, kind, stats)
         C, clk, crk = gen_candset(rng, L, R, lk, rk, stats)
+        L0, R0, la0, ra0 = L, R, la, ra
+        L, R, lk, rk, la, ra, C, clk, crk, bad = malform(rng, stats, L, R, lk, rk, la, ra, C, clk, crk)
         nj = rng.choice([1, 1, 2, 3, -1, 50])
         try:
             out = f.filter_candset(C, clk, crk, L, R, lk, rk, la, ra, n_jobs=nj, show_progress=False)
             exp = {'ok': out_frame(out)}
             stats.hit('filter_candset.kept', len(out))
-            stats.hit('filter_candset.dropped', len(C) - len(out))
+            stats.hit('filter_candset.dropped', max(0, len(C) - len(out)))
         except (OverflowError, ZeroDivisionError):
             continue
         except Exception as e:   # noqa: BLE001
             exp = {'err': err_name(e)}
         req = {'op': 'filter_candset', 'candset': frame(C), 'cand_l_key': clk, 'cand_r_key': crk,
                'ltable': frame(L), 'rtable': frame(R), 'l_key': lk, 'r_key': rk, 'l_attr': la, 'r_attr': ra,
-               'n_jobs': nj, 'tokenizer': ts.describe(), 'toks': ts.table(strings_of(L[la], R[ra])), 'cpu': common.CPU}
+               'n_jobs': nj, 'tokenizer': ts.describe(), 'toks': ts.table(strings_of(L0[la0], R0[ra0])), 'cpu': common.CPU}
         req.update(d)
         cases.append((req, exp, None))
     return cases
@@ -712,6 +756,8 @@ def suite_apply_matcher(rng, n, stats):
         ts_gen = ts or TokSpec('ws')
         L, R, lk, rk, la, ra = gen_join_frames(rng, ts_gen, stats)
         C, clk, crk = gen_candset(rng, L, R, lk, rk, stats)
+        L0, R0, la0, ra0 = L, R, la, ra
+        L, R, lk, rk, la, ra, C, clk, crk, bad = malform(rng, stats, L, R, lk, rk, la, ra, C, clk, crk, numeric=False)
         log = []
         if use_tok:
             base = rng.choice([Jaccard().get_raw_score, Cosine().get_raw_score, Dice().get_raw_score,
@@ -728,7 +774,7 @@ def suite_apply_matcher(rng, n, stats):
         t = rng.choice([0.3, 0.5, 0.7, 1, 1.0, 2, 0, 0.25, 1.25])
         op = rng.choice(['>=', '>', '<=', '<', '=', '!='])
         am = rng.random() < 0.4
-        lo, ro = choose_out_attrs(rng, L, lk, la), choose_out_attrs(rng, R, rk, ra)
+        lo, ro = choose_out_attrs(rng, L0, lk, la0), choose_out_attrs(rng, R0, rk, ra0)
         oss = rng.random() < 0.7
         nj = rng.choice([1, 1, 2, 3, -1, 50])
         if nj != 1:
@@ -739,7 +785,7 @@ def suite_apply_matcher(rng, n, stats):
                                 'l_', 'r_', oss, nj, False)
             exp = {'ok': out_frame(out)}
             stats.hit('matcher.kept', len(out))
-            stats.hit('matcher.cache' if (ts and len(L) + len(R) < 2 * len(C)) else 'matcher.nocache')
+            stats.hit('matcher.cache' if (ts and bad is None and len(L) + len(R) < 2 * len(C)) else 'matcher.nocache')
         except Exception as e:   # noqa: BLE001
             exp = {'err': err_name(e)}
 
@@ -756,7 +802,7 @@ def suite_apply_matcher(rng, n, stats):
                'ltable': frame(L), 'rtable': frame(R), 'l_key': lk, 'r_key': rk, 'l_attr': la, 'r_attr': ra,
                'threshold': pyv(t), 'comp_op': op, 'allow_missing': am, 'l_out': lo, 'r_out': ro, 'out_sim_score': oss,
                'n_jobs': nj, 'tokenizer': ts.describe() if ts else None,
-               'toks': ts.table(strings_of(L[la], R[ra])) if ts else None, 'sim': simtab, 'cpu': common.CPU}
+               'toks': ts.table(strings_of(L0[la0], R0[ra0])) if ts else None, 'sim': simtab, 'cpu': common.CPU}
         cases.append((req, exp, None))
     return cases
 
